@@ -7,7 +7,7 @@ prefix=$1; shift
 checks=${@:-C01 C02 C03 C04 C05 C06 C07 C08 C09 C10 C11 C12 C13 C14 C15 C16 C17 C18 C19 C20}
 for dir in /verif/benign/${prefix}*/; do
   name=$(basename $dir)
-  d=$(mktemp -d /tmp/bn-XXXX)
+  d=$(mktemp -d /tmp/bn-XXXX) && [ -n "$d" ] || { echo "no scratch directory (disk full?)"; exit 2; }
   git -C /repo worktree add -q --detach $d HEAD || continue
   if ( cd $d && git apply $dir/patch.diff 2>/dev/null ); then
     for p in $checks; do
